@@ -38,9 +38,9 @@ import (
 const c19Margin = 2 * time.Millisecond
 
 type c19Op struct {
-	Kind   string `json:"kind"` // wait | pause | resume | cancel | unknown | reschedule
+	Kind   string `json:"kind"` // wait | pause | resume | cancel | unknown | reschedule | dup
 	WaitMs int    `json:"wait_ms"`
-	API    int    `json:"api"` // unknown: 0 cancel, 1 pause, 2 resume
+	API    int    `json:"api"` // unknown: 0 cancel, 1 pause, 2 resume; dup: 0 same kind of schedule, 1 the other kind
 }
 
 type c19Ref struct {
@@ -69,12 +69,15 @@ func c19Gen(t *rapid.T) c19Case {
 		r.StartMs = rapid.IntRange(0, 40).Draw(t, "start_ms")
 		k := rapid.IntRange(0, 6).Draw(t, "ops")
 		for j := 0; j < k; j++ {
-			op := c19Op{Kind: rapid.SampledFrom([]string{"wait", "wait", "pause", "pause", "resume", "resume", "cancel", "unknown", "reschedule"}).Draw(t, "op")}
+			op := c19Op{Kind: rapid.SampledFrom([]string{"wait", "wait", "pause", "pause", "resume", "resume", "cancel", "unknown", "reschedule", "dup", "dup"}).Draw(t, "op")}
 			switch op.Kind {
 			case "wait":
 				op.WaitMs = rapid.IntRange(0, 250).Draw(t, "wait_ms")
 			case "unknown":
 				op.API = rapid.IntRange(0, 2).Draw(t, "api")
+			case "dup":
+				op.API = rapid.IntRange(0, 1).Draw(t, "dup_kind")
+				op.WaitMs = rapid.SampledFrom([]int{0, 0, 20, 100}).Draw(t, "after_ms")
 			default:
 				// a short pause after the call so that consequences become visible
 				op.WaitMs = rapid.SampledFrom([]int{0, 0, 20, 100, 200}).Draw(t, "after_ms")
@@ -186,6 +189,9 @@ type c19Call struct {
 type c19Timeline struct {
 	calls []c19Call
 	stall string
+	// non-zero: a Schedule/ScheduleOnce call that re-used the live reference returned nil at a call started
+	// at this instant (the schedule was replaced, or the original had just ended): the reference is not judged from here on
+	abandonedAt time.Time
 }
 
 type c19Verdict struct {
@@ -222,12 +228,12 @@ func c19RunRef(sys *actorSystem, recv *PID, l *c19Log, refID int64, reference st
 		tl.calls = append(tl.calls, c)
 		return c.err
 	}
+	opts := []ScheduleOption{WithReference(reference)}
+	if r.WithSender {
+		opts = append(opts, WithSender(c19Sender))
+	}
 	schedule := func() {
 		gen++
-		opts := []ScheduleOption{WithReference(reference)}
-		if r.WithSender {
-			opts = append(opts, WithSender(c19Sender))
-		}
 		msg := &testpb.TestSum{A: refID, B: gen}
 		var err error
 		if r.Once {
@@ -269,6 +275,29 @@ func c19RunRef(sys *actorSystem, recv *PID, l *c19Log, refID int64, reference st
 			// the same reference is scheduled again only when the previous schedule is over
 			if state == "cancelled" {
 				schedule()
+			}
+		case "dup":
+			// Schedule/ScheduleOnce with a reference that is currently live. Its own result is not judged.
+			// An error must leave the original schedule fully operable (it is judged on as before);
+			// nil means the schedule was replaced (or the one-shot had just fired): stop judging this reference.
+			if state == "active" || state == "paused" {
+				once := r.Once
+				if op.API == 1 {
+					once = !once
+				}
+				msg := &testpb.TestSum{A: refID, B: 1000 + gen} // deliveries of a replacement are recognisable
+				var err error
+				if once {
+					err = call("dup", func() error { return sys.ScheduleOnce(ctx, msg, recv, d, opts...) })
+				} else {
+					err = call("dup", func() error { return sys.Schedule(ctx, msg, recv, d, opts...) })
+				}
+				if err == nil {
+					tl.abandonedAt = tl.calls[len(tl.calls)-1].start
+					_ = sys.CancelSchedule(reference) // clean up whatever is registered now; not recorded, not judged
+					time.Sleep(50 * time.Millisecond)
+					return tl
+				}
 			}
 		}
 		time.Sleep(time.Duration(op.WaitMs) * time.Millisecond)
@@ -351,9 +380,21 @@ func c19Judge(c c19Case, refIDs []int64, refs []string, tls []*c19Timeline, arri
 		}
 		for g := int64(1); g <= maxGen; g++ {
 			arr := byGen[key{refIDs[i], g}]
+			if !tl.abandonedAt.IsZero() {
+				var kept []c19Arrival
+				for _, a := range arr {
+					if a.at.Before(tl.abandonedAt) {
+						kept = append(kept, a)
+					}
+				}
+				arr = kept
+			}
 			sort.Slice(arr, func(a, b int) bool { return arr[a].at.Before(arr[b].at) })
 			var calls []c19Call
 			for _, cl := range tl.calls {
+				if !tl.abandonedAt.IsZero() && !cl.start.Before(tl.abandonedAt) {
+					continue
+				}
 				if cl.gen == g && (len(cl.kind) < 8 || cl.kind[:8] != "unknown-") {
 					calls = append(calls, cl)
 				}
@@ -585,6 +626,17 @@ func c19RunCase(x *vfkit.X, sys *actorSystem, c c19Case) c19Verdict {
 			}
 		}
 	}
+	for _, tl := range tls {
+		for _, cl := range tl.calls {
+			if cl.kind == "dup" {
+				if cl.err != nil {
+					v.classes = append(v.classes, "dup_on_live_reference_refused")
+				} else {
+					v.classes = append(v.classes, "dup_on_live_reference_accepted")
+				}
+			}
+		}
+	}
 	for _, r := range c.Refs {
 		if r.Once {
 			v.classes = append(v.classes, "has_once")
@@ -631,7 +683,7 @@ func TestVF_C19_timeline(t *testing.T) {
 	sys, err := c19System(t)
 	vfkit.Run(t, vfkit.Spec[c19Case]{
 		ID: "C19", Unit: "timeline",
-		Rule: "cases = 1..4 references running concurrently on one real actor system, each: ScheduleOnce(delay 30..200 ms) or Schedule(interval 30..80 ms), with or without WithSender, followed by 0..6 operations from {wait 0..250 ms, PauseSchedule, ResumeSchedule, CancelSchedule, Cancel/Pause/Resume of a never scheduled reference, schedule the same reference again once it was cancelled}; an adaptive final phase waits (10 s grace, three-strikes rule) for the delivery that must still happen, cancels and keeps watching for 4 intervals; every call is recorded with start/return instants and result, every delivery with its arrival instant; non-trivial = a repeating schedule was paused or cancelled while live by a generated operation; distinct = distinct cases",
+		Rule: "cases = 1..4 references running concurrently on one real actor system, each: ScheduleOnce(delay 30..200 ms) or Schedule(interval 30..80 ms), with or without WithSender, followed by 0..6 operations from {wait 0..250 ms, PauseSchedule, ResumeSchedule, CancelSchedule, Cancel/Pause/Resume of a never scheduled reference, schedule the same reference again once it was cancelled, Schedule/ScheduleOnce with the reference while it is live (result not judged: after an error the original schedule is judged on as a live reference, after nil the reference is no longer judged)}; an adaptive final phase waits (10 s grace, three-strikes rule) for the delivery that must still happen, cancels and keeps watching for 4 intervals; every call is recorded with start/return instants and result, every delivery with its arrival instant; non-trivial = a repeating schedule was paused or cancelled while live by a generated operation; distinct = distinct cases",
 		Gen:  c19Gen, Exec: c19Exec(sys, err),
 		ReplayReps: 5,
 	})
